@@ -32,7 +32,7 @@ Matches(it, e) ==
     \* "PH": the sheet leaves open whether the paragraph is a heading
     /\ IF it.k = "PH" THEN e.k \in {"P", "H"} ELSE it.k = e.k
     /\ it.ids = e.ids
-    /\ it.k \in {"H", "LI"} => it.lvl = e.lvl
+    /\ it.k \in {"H", "LI"} => (it.lvl = e.lvl \/ it.alt = -1 \/ (it.alt > 0 /\ it.alt = e.lvl))
     /\ it.k # "TBL" => /\ Len(e.gaps) = Len(it.gaps)
                        /\ \A j \in 1..Len(it.gaps) : GapOK(it.gaps[j], e.gaps[j])
     /\ it.k = "TBL" => /\ it.rows = e.rows /\ it.cols = e.cols
